@@ -66,6 +66,17 @@ CHECKS["C09"] = dict(
     technique="TLA+ rule model enumerated by TLC; compiler-evaluated probe matrix compared per cell",
     design="DESIGN.md §5 C09, §6 F4")
 
+CHECKS["C02"] = dict(
+    text="spec/Shapes.tla enumerates the single-method trait grammar (5 receivers x 14 argument shapes x 10 return shapes x int_result, minus combinations Rust or the generator cannot express) with the C signature predicted for each; every definition is rendered into a trait, a logging implementor and a driver, compiled against /repo and executed directly and through every admissible container (Box, Box+Arc context, &, &mut, CArcSome) with two values per shape (empty/extreme included): the digest and address logged by the callee must equal what the caller sent, returned values/borrows must equal the direct call's, and callee writes through &mut shapes must be visible to the caller.",
+    note="Trusted: TLC (enumeration), tools/render_progs.py (renderer), rustc. Quick = pairwise slice of the grammar (129 definitions), thorough = full grammar (644).",
+    technique="TLA+ grammar enumerated by TLC; each enumerated program compiled and executed against the implementation (translation of spec states into programs)",
+    design="DESIGN.md §5 C02")
+CHECKS["C03"] = dict(
+    text="spec/Shapes.tla states (ASSUME AllFfiSafe) that every C type the generator is documented to produce for the grammar is C-representable and predicts each slot's signature; every enumerated definition is expanded by the real cglue-gen (linked as a library), written out as ordinary source and compiled with rustc's improper_ctypes / improper_ctypes_definitions lints on vtable fields, wrapper functions and concrete Box/ArcBox/Ref/Mut instantiations; every generated struct and every public wrapper type in cglue/src is scanned for #[repr(C)]/#[repr(transparent)]/#[repr(u8)]; vtable entries must be extern \"C\". Two non-C shapes (tuple, Rust-ABI fn pointer) are canaries that the lint is live. Signature differences from the prediction are model drift, not alarms.",
+    note="Trusted: rustc's FFI lints (the final judge), syn-based scan in harness/gen. Quick = pairwise slice, thorough = full grammar.",
+    technique="TLA+ grammar enumerated by TLC with predicted signatures; real generator expansion judged by the compiler's FFI lint",
+    design="DESIGN.md §5 C03")
+
 NOT_YET = {}
 
 def main():
